@@ -641,13 +641,14 @@ pub fn ci_z_normal(
     let p = x / n;
     let q = 1. - p;
 
-    // NB: the rule n*p >= 10 and n*q >= 10 is decided on the counts themselves (n*p = x and n*q = n - x),
-    // because the products are rounded: e.g., 18 successes out of 28 give n * q = 9.999999999999998.
-    if !(x >= 10.) {
+    // NB: the rule n*p >= 10 and n*q >= 10 is decided on the integer counts themselves (n*p = x and
+    // n*q = n - x): the products are rounded (18 successes out of 28 give n * q = 9.999999999999998),
+    // and so are the counts once converted to floats above 2^53.
+    if successes < 10 {
         // too few successes for statistical significance
         return Err(CIError::TooFewSuccesses(successes, population, n * p));
     }
-    if !(n - x >= 10.) {
+    if population - successes < 10 {
         // too few failures for statistical significance
         return Err(CIError::TooFewFailures(
             population - successes,
